@@ -195,11 +195,11 @@ def Fmt.sub (F : Fmt) (a b : Nat) : Nat :=
 
 /-- IEEE `a / b` on finite values, `b ≠ 0` -/
 def Fmt.div (F : Fmt) (a b : Nat) : Nat :=
-  let (na, ma, ea) := F.frac a
-  let (nb, mb, eb) := F.frac b
-  let e := ea - eb
-  F.withSign (na != nb)
-    (if e ≥ 0 then roundPos F (ma * 2 ^ e.toNat) mb else roundPos F ma (mb * 2 ^ (-e).toNat))
+  let fa := F.frac a
+  let fb := F.frac b
+  let e := fa.2.2 - fb.2.2
+  F.withSign (fa.1 != fb.1)
+    (if e ≥ 0 then roundPos F (fa.2.1 * 2 ^ e.toNat) fb.2.1 else roundPos F fa.2.1 (fb.2.1 * 2 ^ (-e).toNat))
 
 /-- `a.max(b)` on non-NaN values (which zero is returned for `±0` is not specified by Rust; the
 correspondence normalises derived zeros) -/
